@@ -1494,6 +1494,7 @@ class Sampling(Discrete):
 
         self.v = np.array([0])
         self._last_t = np.array([0.0])
+        self._prev_t = np.array([0.0])   # time of the sample before the last one
         self._last_v = np.array([0])
         self.indices = np.array([0])
 
@@ -1523,7 +1524,8 @@ class Sampling(Discrete):
 
         - If time does not progress, update `v`.
 
-        - If rewinds, restore `_last_v` to `v`.
+        - If rewinds past the last sample time, restore `_last_v` to `v` and the
+          previous sample time to `_last_t`.
 
         """
 
@@ -1532,26 +1534,27 @@ class Sampling(Discrete):
         if dae_t == 0:  # initial step
             self._last_v[:] = self.u.v[:]
             self.v[:] = self.u.v[:]
+            return
 
-        elif dae_t > self._last_t:
+        if dae_t < self._last_t:
+            # the last sample was taken at a time that has been rewound:
+            # undo it, then treat `dae_t` like any other time
+            self.rewind = True
+            self.v[:] = self._last_v
+            self._last_t[0] = self._prev_t[0]
+
+        if dae_t > self._last_t:
             do_sample = (dae_t - self.offset - self._last_t) > self.interval
 
             if do_sample:
                 self._last_v[:] = self.v
                 self.v[:] = self.u.v
+                self._prev_t[0] = self._last_t[0]
                 self._last_t[0] = dae_t
 
         elif dae_t == self._last_t:
             if len(self.indices) > 0:
                 self.v[:] = self.u.v
-
-        else:
-            # if dae_t < self._last_t
-            self.rewind = True
-
-            if self._last_t[0] > dae_t:
-                self.v[:] = self._last_v
-                self._last_t[0] = dae_t
 
 
 class ShuntAdjust(Discrete):
